@@ -2,6 +2,7 @@ from experimaestro.core.context import SerializationContext
 from experimaestro.core.objects import ConfigInformation
 from experimaestro.utils import logger
 import experimaestro.taskglobals as taskglobals
+from itertools import chain
 from pathlib import Path
 import json
 
@@ -18,6 +19,20 @@ def load_job(job_path: Path, discard_id=True):
     except Exception:
         logger.exception("Error while loading the parameters from %s", job_path)
         return None, None
+
+
+def experiment_links(workpath: Path, jobpath: Path):
+    """The experiments refer to their jobs through links
+    `xp/<name>/jobs/<task id>/<job id>` to the job folders (`orphans` relies
+    on them): returns those leading to this job folder"""
+    return [
+        link
+        for xpjobspath in chain(
+            (workpath / "xp").glob("*/jobs"), (workpath / "xp").glob("*/jobs.bak")
+        )
+        for link in [xpjobspath / jobpath.parent.name / jobpath.name]
+        if link.is_symlink() and link.resolve() == jobpath.resolve()
+    ]
 
 
 def link_result_files(jobpath: Path, old_name: str, new_name: str):
@@ -107,8 +122,17 @@ def fix_deprecated(workpath: Path, fix: bool, cleanup: bool):
                             json.dump(params, out)
                         tmppath.replace(job_path)
 
-                        # Rename the folder
+                        # Rename the folder (the experiments follow)
+                        xplinks = experiment_links(workpath, oldjobpath)
                         oldjobpath.rename(newjobpath)
+                        for xplink in xplinks:
+                            newxplink = (
+                                xplink.parents[1] / newjobpath.parent.name / newjobpath.name
+                            )
+                            newxplink.parent.mkdir(exist_ok=True)
+                            if not (newxplink.exists() or newxplink.is_symlink()):
+                                newxplink.symlink_to(newjobpath)
+                            xplink.unlink()
                     else:
                         newjobpath.symlink_to(oldjobpath)
 
